@@ -29,6 +29,7 @@
       subroutine ampld(axi, rat, lam, mrr, mri, eps, np, ndgs, 
      &                      alpha, beta, thet0, thet, phi0, phi, nang,
      &                      s11, s12, s21, s22)
+      use, intrinsic :: ieee_arithmetic
 c parameters:
       integer, parameter :: dp = selected_real_kind(15, 307)
 c variables:
@@ -43,6 +44,14 @@ C Call amp_scat_matrix on the first angle to calc the T-matrix
       call amp_scat_matrix (axi,rat,lam,mrr,mri,eps,np,ndgs,alpha,
      &                      beta,thet0,thet(1),phi0,phi(1),
      &                      s11(1),s12(1),s21(1),s22(1),maxi)
+C The T-matrix did not converge: return NaN so that the caller can raise
+      if (maxi < 0) then
+         s11 = ieee_value(1._dp, ieee_quiet_nan)
+         s12 = s11
+         s21 = s11
+         s22 = s11
+         return
+      end if
 C loop over the rest of the angles. T-matrix is a global (common)
       if (nang > 1) then
          do j=2, nang
